@@ -199,6 +199,15 @@ def jobs(tier: str, seed: int) -> list[dict]:
                                 fn='h_showdown',
                                 params=dict(n=2, depth=2, hilo=True, deck=deck, _preset=pre, part=part),
                                 budget_s=B, must_cover=mc if k else []))
+    # antes: trimmed (uncalled part returned) and untrimmed (dead money in the main pot), short stacks included
+    for trim in (True, False):
+        for k, part in enumerate(weak_orders(names3)):
+            if tier == 'quick' and k not in (0, 4, 8, 12):
+                continue
+            out.append(dict(name=f'allin/n3/hi/ante3/trim{int(trim)}/w{k}', fn='h_showdown',
+                            params=dict(n=3, depth=0, shape='allin', deck=deck, part=part, ante=3, trim=trim,
+                                        levels=2),
+                            budget_s=B, must_cover=mc))
     if tier == 'thorough':
         for k, part in enumerate(weak_orders(names3)):
             out.append(dict(name=f'allin/n3/hi/2boards/w{k}', fn='h_showdown',
